@@ -764,6 +764,10 @@ class Interp:
             return BoundMethod(base, attr)
         if isinstance(base, RegexVal) and attr == "pattern":
             return base.pattern
+        if isinstance(base, _re.Match) and attr in ("string", "pos", "endpos", "lastgroup", "lastindex"):
+            return getattr(base, attr)
+        if isinstance(base, _re.Match) and attr == "re":
+            return RegexVal(base.re.pattern, base.re.flags)
         return BoundMethod(base, attr)
 
     def e_Subscript(self, n, env, m):
